@@ -140,6 +140,9 @@ class Scheduler:
         self.remote_tag = None
         self.gc_rng = None
         self.gc_prob = 0.0
+        self.stall_rng = None
+        self.stall_prob = 0.0
+        self.on_timeout = None
         self.overlap = False  # two tasks of one phase were inside an operation at once
 
     # ------------------------------------------------------------------ set-up
@@ -338,12 +341,21 @@ class Scheduler:
             st = self.lockstate[key] = {"owner": None}
         return key, st
 
-    def lock_acquire(self, uid, name, block=True):
+    def lock_acquire(self, uid, name, block=True, timeout=None):
         self.point("lock.acquire", name)
         cur = self.current
         key, st = self._lockstate(uid)
         if st["owner"] is not None:
             if not block:
+                return False
+            if timeout is not None and timeout >= 0 and self.stall_rng is not None and self.stall_rng.random() < self.stall_prob:
+                # fault: the holder is slow or stalled (stopped process, hanging file system) for
+                # longer than the waiter is willing to wait - the acquisition times out while the
+                # holder is still inside its critical section.  Simulated time jumps by the timeout.
+                self.count("lock_timeout_expired")
+                self.log.append((self.step, cur.name, "lock.timeout", name))
+                if self.on_timeout is not None:
+                    self.on_timeout(float(timeout))
                 return False
             if st["owner"] is cur:
                 self.count("self_deadlock")
